@@ -410,10 +410,10 @@ def run_check(pid, mod, tier, seed, replay):
         if getattr(st, 'py_judge', None):
             verdicts = [st.py_judge(c, o) for c, o in zip(cases, impl)]
         elif st.judge:
-            verdicts, err = driver(pid, st.judge, [c + ' => ' + o for c, o in zip(cases, impl)])
+            verdicts, err = driver(pid, st.judge, [c + ' => ' + o for c, o in zip(mcases, impl)])
             if err:
                 res.errors.append('%s: driver(%s): %s' % (st.name, st.judge, err)); continue
-        if st.bulk and impl == model and (spec is None or (spec == impl and not getattr(st, 'spec_match', None))) and (verdicts is None or all(v == 'ok' for v in verdicts)):
+        if st.bulk and impl == model and (spec is None or (spec == impl and not getattr(st, 'spec_match', None) and not getattr(st, 'spec_match3', None))) and (verdicts is None or all(v == 'ok' for v in verdicts)):
             res.evaluations += len(cases)
             nt = set(c for c, a in zip(cases, impl) if st.nontrivial(c, a))
             res.nontrivial.update(st.name + ' ' + c for c in nt)
@@ -434,7 +434,7 @@ def run_check(pid, mod, tier, seed, replay):
             else:
                 res.hist[st.name] = res.hist.get(st.name, 0) + 1
             why = None
-            if spec is not None and not (st.spec_match(st.canon(spec[idx]), a2) if getattr(st, 'spec_match', None) else st.canon(spec[idx]) == a2):
+            if spec is not None and not (st.spec_match3(c, st.canon(spec[idx]), a2) if getattr(st, 'spec_match3', None) else st.spec_match(st.canon(spec[idx]), a2) if getattr(st, 'spec_match', None) else st.canon(spec[idx]) == a2):
                 why = 'spec ' + st.canon(spec[idx])
             if verdicts is not None and verdicts[idx] != 'ok':
                 why = 'judge ' + verdicts[idx]
